@@ -1020,6 +1020,36 @@ def custom_types():
     import stix2
     from stix2.properties import BooleanProperty, IntegerProperty, ListProperty, StringProperty, TimestampProperty
 
+    # the library meets content of these types BEFORE they are registered (an ingest pipeline that sees a feed first and learns its types later): whatever it
+    # concluded then must not outlive the registration
+    ts = {"created": "2020-01-01T00:00:00.000Z", "modified": "2020-01-01T00:00:00.000Z"}
+    early = [({"type": "x-verif-rt", "spec_version": "2.1", "id": "x-verif-rt--11111111-1111-4111-8111-111111111111", "name": "n", **ts}, "2.1", False),
+             ({"type": "x-verif-rt", "id": "x-verif-rt--11111111-1111-4111-8111-111111111111", "name": "n", **ts}, "2.0", False),
+             ({"type": "x-verif-rt-obs", "spec_version": "2.1", "id": "x-verif-rt-obs--11111111-1111-4111-8111-111111111111", "value": "v"}, "2.1", False),
+             ({"type": "x-verif-rt-obs", "value": "v"}, "2.1", True), ({"type": "x-verif-rt-obs", "value": "v"}, "2.0", True),
+             ({"type": "identity", "spec_version": "2.1", "id": "identity--11111111-1111-4111-8111-111111111111", "name": "n", "rank": 1, **ts,
+               "extensions": {"extension-definition--aaaaaaaa-1111-4111-8111-111111111111": {"extension_type": "toplevel-property-extension"},
+                              "extension-definition--cccccccc-1111-4111-8111-111111111111": {"extension_type": "property-extension", "depth": 1}}}, "2.1", False)]
+    for d, v, obs in early:
+        for strict in (False, True):
+            for ver in (None, v):
+                for wrapped in (False, True):
+                    try:
+                        if obs:
+                            stix2.parse_observable(copy.deepcopy(d), allow_custom=not strict, version=ver)
+                        elif wrapped:
+                            stix2.parse({"type": "bundle", "id": "bundle--11111111-1111-4111-8111-111111111111", "objects": [copy.deepcopy(d)], **({"spec_version": "2.0"} if v == "2.0" else {})},
+                                        allow_custom=not strict, version=ver)
+                        else:
+                            stix2.parse(copy.deepcopy(d), allow_custom=not strict, version=ver)
+                    except Exception:  # noqa  (refusals of unregistered content are expected here)
+                        pass
+    try:
+        stix2.parse({"type": "observed-data", "id": "observed-data--11111111-1111-4111-8111-111111111111", **ts, "first_observed": "2020-01-01T00:00:00Z", "last_observed": "2020-01-01T00:00:00Z",
+                     "number_observed": 1, "objects": {"0": {"type": "x-verif-rt-obs", "value": "v"}}}, allow_custom=True, version="2.0")
+    except Exception:  # noqa
+        pass
+
     @stix2.v21.CustomObject("x-verif-rt", [("name", StringProperty(required=True)), ("level", IntegerProperty()), ("flag", BooleanProperty(default=lambda: False)),
                                            ("tags", ListProperty(StringProperty)), ("seen", TimestampProperty())])
     class XVerifRt(object):
